@@ -519,6 +519,17 @@ def authorityOf (o : Opts) (schemePort : Nat) (rawHost : Bytes) : Option Bytes :
   | none => none
   | some h1 => if o.hostNormalize then hostNormalizeV4 schemePort h1 else some h1
 
+/-- the doc root after the handle_docroot hooks (mod_simple_vhost / mod_evhost), else the configured one -/
+def vhostRoot (strict : Bool) (docroot : Bytes) (vh : VhostCfg) (isdir : Bytes → Bool) (authority : Bytes) : Bytes :=
+  match vh with
+  | .none => docroot
+  | .simple sroot defhost droot =>
+    (match svhostDocroot strict isdir sroot defhost droot authority with
+     | some (d, _) => d | none => docroot)
+  | .evhost pieces =>
+    (match evhostDocroot strict isdir pieces authority with
+     | some d => d | none => docroot)
+
 /-- request-target and Host to the physical path, as http_request_parse() and
     http_response_prepare() compose it: target parsing, host policy, vhost doc_root,
     doc_root + rel_path, alias remap -/
@@ -530,19 +541,68 @@ def servePath (o : Opts) (lc : Bool) (docroot : Bytes) (vh : VhostCfg) (isdir : 
     match authorityOf o 80 rawHost with
     | none => .reject 400
     | some authority =>
-    let dr : Bytes :=
-      match vh with
-      | .none => docroot
-      | .simple sroot defhost droot =>
-        (match svhostDocroot o.hostStrict isdir sroot defhost droot authority with
-         | some (d, _) => d | none => docroot)
-      | .evhost pieces =>
-        (match evhostDocroot o.hostStrict isdir pieces authority with
-         | some d => d | none => docroot)
+    let dr : Bytes := vhostRoot o.hostStrict docroot vh isdir authority
     let phys := physicalPath lc dr t.path
     if aliases.isEmpty then .path phys dr else
     match aliasRemap lc aliases dr phys with
     | .forbidden => .reject 403
     | .go p b => .path p b
+
+/-! ### the whole request: method, userdir, index file -/
+
+structure UserdirCfg where
+  letterhomes : Bool
+  basepath : Bytes
+  path : Bytes
+deriving Repr
+
+structure ServeCfg where
+  lc : Bool
+  docroot : Bytes
+  vh : VhostCfg
+  aliases : List (Bytes × Bytes)
+  userdir : Option UserdirCfg
+  index : List Bytes
+deriving Repr
+
+inductive ServeOut
+  | answered (st : Nat)            -- finished without opening a filesystem object
+  | file (p basedir : Bytes)       -- the path handed to the file layer, and physical.basedir
+deriving Repr
+
+/-- mod_userdir on this request (handle_physical) -/
+def userdirStep (cfg : ServeCfg) (uriPath : Bytes) : UserdirRes :=
+  match cfg.userdir with
+  | none => .pass
+  | some u => userdirRemap cfg.lc u.letterhomes u.basepath u.path uriPath
+                (if cfg.lc then lowerBytes uriPath else uriPath)
+
+/-- physical.path / physical.basedir after mod_userdir -/
+def afterUserdir (ud : UserdirRes) (p d : Bytes) : Bytes × Bytes :=
+  match ud with
+  | .go p' b => (p', b)
+  | _ => (p, d)
+
+/-- http_response_prepare() as far as the filesystem path goes.
+    `special`: "OPTIONS *" (answered 200 by http_response_prepare_options_star) or CONNECT without a
+    handler (405, http_response_prepare_connect) - response.c returns before the doc-root / physical-path
+    code, the raw target never becomes a path.  Otherwise: `servePath`, then mod_userdir (handle_physical,
+    replaces path and basedir for "/~user/..."), then mod_indexfile when the url-path ends in '/'. -/
+def serveRequest (o : Opts) (cfg : ServeCfg) (isdir exists_ : Bytes → Bool) (special : Bool)
+    (rawHost target : Bytes) : ServeOut :=
+  if special then .answered (if target = [42] then 200 else 405) else
+  match parseTarget o false target, authorityOf o 80 rawHost with
+  | .ok t, some authority =>
+    (match servePath o cfg.lc cfg.docroot cfg.vh isdir cfg.aliases rawHost target with
+     | .reject st => .answered st
+     | .path p d =>
+       let ud := userdirStep cfg t.path
+       if ud = .redirect then .answered 301 else
+       let pd := afterUserdir ud p d
+       if endsWithSlash t.path then
+         .file (indexResolve exists_ (vhostRoot o.hostStrict cfg.docroot cfg.vh isdir authority) pd.1 cfg.index) pd.2
+       else .file pd.1 pd.2)
+  | .error e, _ => .answered e
+  | _, none => .answered 400
 
 end LtVerif
